@@ -14,7 +14,7 @@ from concurrent.futures import ThreadPoolExecutor
 
 ROOT = os.environ.get("VERIF_ROOT", "/verif")
 CRATE = os.path.join(ROOT, "stammiri")
-FLAGS = "-Zmiri-preemption-rate=0.05 -Zmiri-disable-stacked-borrows -Zmiri-disable-validation -Zmiri-disable-alignment-check"
+FLAGS = "-Zmiri-preemption-rate=0.05 -Zmiri-ignore-leaks -Zmiri-disable-stacked-borrows -Zmiri-disable-validation -Zmiri-disable-alignment-check"
 TIMEOUT = 900
 
 
